@@ -1,6 +1,7 @@
-(* Proofs/DateProofs.v — DATE_SUBTRACT undoes DATE_ADD, DATE_DIFF of the two is
-   the (absolute) amount within the no-saturation guard, refutations beyond
-   it; the calendar and the RFC 3339 round trip. *)
+(* Proofs/DateProofs.v — DATE_SUBTRACT undoes DATE_ADD, DATE_DIFF is the exact
+   whole number of units between two instants and so the (absolute) amount
+   after DATE_ADD, for every amount of the property's range; the sign
+   refutation; the calendar and the RFC 3339 round trip. *)
 From Ferret Require Import Date.
 From Coq Require Import Lia ZifyBool.
 Open Scope Z_scope.
@@ -10,8 +11,12 @@ Open Scope Z_scope.
 Definition unit_mult (u : dunit) : Z :=
   match u with UDay => 1 | UWeek => 7 | _ => unit_ns u end.
 Definition amount_ok (n : Z) (u : dunit) : Prop := Z.abs (n * unit_mult u) < 2 ^ 63.
+(* DATE_DIFF after DATE_ADD: the addition itself must not wrap; the bound on the
+   amount keeps the int64 seconds of diff.go far from overflow.  There is no
+   bound on amount * unit any more (nothing saturates): every amount in
+   [-10^6, 10^6] of every unit is inside (in_range_guard). *)
 Definition diff_guard (n : Z) (u : dunit) : Prop :=
-  Z.abs n <= 2 ^ 32 /\ Z.abs n * unit_ns u <= 2 ^ 63 - 1.
+  Z.abs n <= 2 ^ 32 /\ amount_ok n u.
 
 Lemma pow63 : 2 ^ 63 = 9223372036854775808. Proof. reflexivity. Qed.
 Lemma pow64 : 2 ^ 64 = 18446744073709551616. Proof. reflexivity. Qed.
@@ -94,74 +99,11 @@ Proof.
   exists (0, 0), 3000000, UHour. split; [unfold inst_norm; cbn; lia|]. vm_compute. discriminate.
 Qed.
 
-(* ---- float64(int64) is exact on m * 2^k with |m| < 2^53 *)
-Lemma f64_round_exact : forall m k, 0 <= k -> Z.abs m < 2 ^ 53 -> f64_round (m * 2 ^ k) = m * 2 ^ k.
-Proof.
-  intros m k Hk Hm. unfold f64_round.
-  set (z := m * 2 ^ k).
-  destruct (Z.abs z <=? 2 ^ 53) eqn:E; [reflexivity|].
-  apply Z.leb_gt in E.
-  assert (Hp : 0 < 2 ^ k) by (apply Z.pow_pos_nonneg; lia).
-  assert (Ha : Z.abs z = Z.abs m * 2 ^ k).
-  { unfold z. rewrite Z.abs_mul. rewrite (Z.abs_eq (2 ^ k)) by lia. reflexivity. }
-  set (a := Z.abs z) in *.
-  assert (Hapos : 0 < a) by (assert (0 < 2 ^ 53) by (rewrite pow53; lia); lia).
-  pose proof (Z.log2_spec a Hapos) as [L1 L2].
-  set (L := Z.log2 a) in *.
-  assert (HL0 : 0 <= L) by apply Z.log2_nonneg.
-  assert (HLlo : 53 <= L).
-  { assert (2 ^ 53 < 2 ^ Z.succ L) by lia.
-    apply Z.pow_lt_mono_r_iff in H; lia. }
-  assert (HLhi : L < 53 + k).
-  { assert (a < 2 ^ 53 * 2 ^ k) by (rewrite Ha; apply Z.mul_lt_mono_pos_r; lia).
-    rewrite <- Z.pow_add_r in H by lia.
-    assert (2 ^ L < 2 ^ (53 + k)) by lia.
-    apply Z.pow_lt_mono_r_iff in H0; lia. }
-  set (sh := L - 52).
-  assert (Hsh : 1 <= sh <= k) by (unfold sh; lia).
-  assert (Hps : 0 < 2 ^ sh) by (apply Z.pow_pos_nonneg; lia).
-  assert (Hdecomp : a = (Z.abs m * 2 ^ (k - sh)) * 2 ^ sh).
-  { rewrite Ha. rewrite <- Z.mul_assoc. rewrite <- Z.pow_add_r by lia.
-    replace (k - sh + sh) with k by lia. reflexivity. }
-  assert (Hmod : a mod 2 ^ sh = 0) by (rewrite Hdecomp; apply Z.mod_mul; lia).
-  assert (Hdiv : a / 2 ^ sh * 2 ^ sh = a).
-  { rewrite Hdecomp at 1. rewrite Z.div_mul by lia. symmetry. exact Hdecomp. }
-  rewrite Hmod.
-  assert (Hhalf : 0 < 2 ^ (sh - 1)) by (apply Z.pow_pos_nonneg; lia).
-  destruct (0 <? 2 ^ (sh - 1)) eqn:E2; [|apply Z.ltb_ge in E2; lia].
-  rewrite Hdiv. unfold a. lia.
-Qed.
-
-Lemma f64_round_unit : forall n u, diff_guard n u ->
-  f64_round (Z.abs n * unit_ns u) = Z.abs n * unit_ns u.
-Proof.
-  intros n u [G1 G2]. rewrite pow32 in G1. rewrite pow63 in G2.
-  pose proof (Z.abs_nonneg n) as P.
-  destruct u; cbn [unit_ns] in *.
-  - replace (Z.abs n * 1000000) with ((Z.abs n * 15625) * 2 ^ 6) by (change (2 ^ 6) with 64; lia).
-    apply f64_round_exact; [lia|]. rewrite pow53. rewrite Z.abs_eq by lia. lia.
-  - replace (Z.abs n * 1000000000) with ((Z.abs n * 1953125) * 2 ^ 9) by (change (2 ^ 9) with 512; lia).
-    apply f64_round_exact; [lia|]. rewrite pow53. rewrite Z.abs_eq by lia. lia.
-  - replace (Z.abs n * 60000000000) with ((Z.abs n * 29296875) * 2 ^ 11) by (change (2 ^ 11) with 2048; lia).
-    apply f64_round_exact; [lia|]. rewrite pow53. rewrite Z.abs_eq by lia. lia.
-  - replace (Z.abs n * 3600000000000) with ((Z.abs n * 439453125) * 2 ^ 13) by (change (2 ^ 13) with 8192; lia).
-    apply f64_round_exact; [lia|]. rewrite pow53. rewrite Z.abs_eq by lia. lia.
-  - replace (Z.abs n * 86400000000000) with ((Z.abs n * 1318359375) * 2 ^ 16) by (change (2 ^ 16) with 65536; lia).
-    apply f64_round_exact; [lia|]. rewrite pow53. rewrite Z.abs_eq by lia. lia.
-  - replace (Z.abs n * 604800000000000) with ((Z.abs n * 9228515625) * 2 ^ 16) by (change (2 ^ 16) with 65536; lia).
-    apply f64_round_exact; [lia|]. rewrite pow53. rewrite Z.abs_eq by lia. lia.
-Qed.
-
 Lemma unit_ns_pos : forall u, 0 < unit_ns u.
 Proof. destruct u; cbn; lia. Qed.
 
 Lemma diff_guard_amount_ok : forall n u, diff_guard n u -> amount_ok n u.
-Proof.
-  intros n u [G1 G2]. unfold amount_ok. rewrite Z.abs_mul.
-  pose proof (unit_mult_pos u). rewrite (Z.abs_eq (unit_mult u)) by lia.
-  rewrite pow32 in G1. rewrite pow63 in *. pose proof (Z.abs_nonneg n).
-  destruct u; cbn [unit_ns unit_mult] in *; lia.
-Qed.
+Proof. intros n u [_ H]. exact H. Qed.
 
 Lemma inst_eqb_ns : forall a b, inst_norm a -> inst_norm b ->
   inst_eqb a b = (inst_ns a =? inst_ns b).
@@ -179,66 +121,111 @@ Proof.
   destruct (s * 1000000000 + n >? s' * 1000000000 + n') eqn:E4; cbn; try reflexivity; lia.
 Qed.
 
-Lemma time_sub_exact : forall a b, - 2 ^ 63 <= inst_ns a - inst_ns b <= 2 ^ 63 - 1 ->
-  time_sub a b = inst_ns a - inst_ns b.
+Lemma whole_units_exact : forall sec nsec u, 0 <= sec <= 2 ^ 53 -> 0 <= nsec < 1000000000 ->
+  whole_units sec nsec (unit_ns u) = (sec * 1000000000 + nsec) / unit_ns u.
 Proof.
-  intros [s n] [s' n'] H. unfold time_sub, inst_ns, max_duration, min_duration in *.
-  cbn [fst snd] in *. rewrite pow63 in *.
-  repeat match goal with
-         | |- context [if ?b then _ else _] => destruct b eqn:?
-         end; lia.
+  intros sec nsec u Hs Hn. rewrite pow53 in Hs.
+  assert (big : forall k, 0 < k -> Z.quot sec k = (sec * 1000000000 + nsec) / (k * 1000000000)).
+  { intros k Hk. rewrite Z.quot_div_nonneg by lia.
+    rewrite (Z.mul_comm k), <- Z.div_div by lia.
+    rewrite Z.div_add_l by lia. rewrite (Z.div_small nsec) by lia. f_equal. lia. }
+  destruct u; unfold whole_units; cbn [unit_ns].
+  - change (1000000 >=? 1000000000) with false. cbv iota.
+    change (Z.quot 1000000000 1000000) with 1000.
+    rewrite Z.quot_div_nonneg by lia.
+    assert (0 <= nsec / 1000000 < 1000) by (split; [apply Z.div_pos; lia | apply Z.div_lt_upper_bound; lia]).
+    rewrite (wrap64_id (sec * 1000)) by (rewrite pow63; lia).
+    rewrite wrap64_id by (rewrite pow63; lia).
+    replace (sec * 1000000000 + nsec) with (sec * 1000 * 1000000 + nsec) by lia.
+    rewrite Z.div_add_l by lia. reflexivity.
+  - change (1000000000 >=? 1000000000) with true. cbv iota.
+    change (Z.quot 1000000000 1000000000) with 1. rewrite (big 1) by lia. reflexivity.
+  - change (60000000000 >=? 1000000000) with true. cbv iota.
+    change (Z.quot 60000000000 1000000000) with 60. rewrite (big 60) by lia. reflexivity.
+  - change (3600000000000 >=? 1000000000) with true. cbv iota.
+    change (Z.quot 3600000000000 1000000000) with 3600. rewrite (big 3600) by lia. reflexivity.
+  - change (86400000000000 >=? 1000000000) with true. cbv iota.
+    change (Z.quot 86400000000000 1000000000) with 86400. rewrite (big 86400) by lia. reflexivity.
+  - change (604800000000000 >=? 1000000000) with true. cbv iota.
+    change (Z.quot 604800000000000 1000000000) with 604800. rewrite (big 604800) by lia. reflexivity.
 Qed.
 
-(* DATE_DIFF(t, DATE_ADD(t, n, u), u) = |n|: the implementation subtracts the
-   earlier instant from the later one *)
+(* the later instant minus the earlier one, split as diff.go splits it *)
+Lemma split_exact : forall a b u, inst_norm a -> inst_norm b ->
+  inst_ns a > inst_ns b -> fst a - fst b <= 2 ^ 53 ->
+  (let sec := wrap64 (fst a - fst b) in
+   let nsec := snd a - snd b in
+   if nsec <? 0 then whole_units (wrap64 (sec - 1)) (nsec + 1000000000) (unit_ns u)
+   else whole_units sec nsec (unit_ns u)) = (inst_ns a - inst_ns b) / unit_ns u.
+Proof.
+  intros [s n] [s' n'] u Ha Hb Hgt Hs. unfold inst_norm, inst_ns in *. cbn [fst snd] in *.
+  rewrite pow53 in Hs. cbv zeta.
+  assert (0 <= s - s') by lia.
+  rewrite (wrap64_id (s - s')) by (rewrite pow63; lia).
+  destruct (n - n' <? 0) eqn:E.
+  - rewrite wrap64_id by (rewrite pow63; lia).
+    rewrite whole_units_exact by (rewrite ?pow53; lia). f_equal. lia.
+  - rewrite whole_units_exact by (rewrite ?pow53; lia). f_equal. lia.
+Qed.
+
+Theorem date_diff_exact : forall a b u, inst_norm a -> inst_norm b ->
+  Z.abs (fst a - fst b) <= 2 ^ 53 ->
+  date_diff a b u = Z.abs (inst_ns a - inst_ns b) / unit_ns u.
+Proof.
+  intros a b u Ha Hb Hs. unfold date_diff.
+  rewrite inst_eqb_ns, inst_after_ns by assumption.
+  destruct (inst_ns a =? inst_ns b) eqn:Eq.
+  - replace (inst_ns a - inst_ns b) with 0 by lia. reflexivity.
+  - destruct (inst_ns a >? inst_ns b) eqn:Ea.
+    + rewrite split_exact by (try assumption; lia). rewrite Z.abs_eq by lia. reflexivity.
+    + rewrite split_exact by (try assumption; lia). rewrite Z.abs_neq by lia. f_equal. lia.
+Qed.
+
 Theorem date_diff_abs_amount : forall t n u, inst_norm t -> diff_guard n u ->
   date_diff t (date_add t n u) u = Z.abs n.
 Proof.
-  intros t n u Hn G. pose proof (diff_guard_amount_ok n u G) as Hok.
+  intros t n u Hn [G1 Hok].
   destruct (add_unit_spec t n u Hn Hok) as [N1 E1]. unfold date_add.
   set (t' := add_unit t n u) in *.
-  unfold date_diff. rewrite inst_eqb_ns, inst_after_ns by assumption.
-  pose proof (unit_ns_pos u) as Up. pose proof G as [G1 G2]. rewrite pow63 in G2.
-  destruct (inst_ns t =? inst_ns t') eqn:Eq.
-  - assert (n = 0) by nia. subst n. reflexivity.
-  - destruct (inst_ns t >? inst_ns t') eqn:Ea.
-    + assert (Hneg : n < 0) by nia.
-      rewrite time_sub_exact by (rewrite pow63; rewrite E1; rewrite Z.abs_neq in G2 by lia; nia).
-      replace (inst_ns t - inst_ns t') with (Z.abs n * unit_ns u) by (rewrite Z.abs_neq by lia; lia).
-      rewrite f64_round_unit by assumption. apply Z.quot_mul. lia.
-    + assert (Hpos : 0 < n) by nia.
-      rewrite time_sub_exact by (rewrite pow63; rewrite E1; rewrite Z.abs_eq in G2 by lia; nia).
-      replace (inst_ns t' - inst_ns t) with (Z.abs n * unit_ns u) by (rewrite Z.abs_eq by lia; lia).
-      rewrite f64_round_unit by assumption. apply Z.quot_mul. lia.
+  pose proof (unit_ns_pos u) as Up. rewrite pow32 in G1.
+  assert (Hs : Z.abs (fst t - fst t') <= 2 ^ 53).
+  { rewrite pow53. destruct t as [s ns], t' as [s' ns']. unfold inst_norm, inst_ns in *.
+    cbn [fst snd] in *. destruct u; cbn [unit_ns] in *; lia. }
+  rewrite date_diff_exact by assumption.
+  replace (inst_ns t - inst_ns t') with (- n * unit_ns u) by lia.
+  rewrite Z.abs_mul, Z.abs_opp, (Z.abs_eq (unit_ns u)) by lia.
+  apply Z.div_mul. lia.
 Qed.
 
-(* so for non-negative amounts DATE_DIFF returns the amount itself *)
 Corollary date_diff_amount : forall t n u, inst_norm t -> diff_guard n u -> 0 <= n ->
   date_diff t (date_add t n u) u = n.
 Proof.
   intros t n u Hn G Hpos. rewrite date_diff_abs_amount by assumption. apply Z.abs_eq. exact Hpos.
 Qed.
 
-(* beyond the guard: Sub saturates at 2^63-1 ns (about 292 years) *)
-Theorem date_diff_refuted_saturation :
-  exists t n u, inst_norm t /\ 0 <= n <= 1000000 /\ date_diff t (date_add t n u) u <> n.
+Lemma in_range_guard : forall n u, - 1000000 <= n <= 1000000 -> diff_guard n u.
 Proof.
-  exists (0, 0), 1000000, UDay. split; [unfold inst_norm; cbn; lia|]. split; [lia|].
-  vm_compute. discriminate.
+  intros n u H. unfold diff_guard, amount_ok. rewrite pow32, pow63. split; [lia|].
+  destruct u; cbn [unit_mult unit_ns]; lia.
 Qed.
 
-Lemma date_diff_saturated_value :
-  date_diff (0, 0) (date_add (0, 0) 1000000 UDay) UDay = 106751
-  /\ date_diff (0, 0) (date_add (0, 0) 1000000 UWeek) UWeek = 15250.
-Proof. split; reflexivity. Qed.
+Theorem date_diff_amount_in_range : forall t n u, inst_norm t -> 0 <= n <= 1000000 ->
+  date_diff t (date_add t n u) u = n.
+Proof. intros t n u Hn H. apply date_diff_amount; [assumption| apply in_range_guard; lia | lia]. Qed.
 
-(* and a negative amount comes back as its absolute value *)
 Theorem date_diff_refuted_sign :
   exists t n u, inst_norm t /\ diff_guard n u /\ date_diff t (date_add t n u) u <> n.
 Proof.
   exists (0, 0), (-1), UDay. split; [unfold inst_norm; cbn; lia|].
-  split; [unfold diff_guard; cbn; lia|]. vm_compute. discriminate.
+  split; [apply in_range_guard; lia|]. vm_compute. discriminate.
 Qed.
+
+Lemma date_diff_large_values :
+  date_diff (0, 0) (date_add (0, 0) 1000000 UDay) UDay = 1000000
+  /\ date_diff (-62135596800, 999999999) (date_add (-62135596800, 999999999) 1000000 UWeek) UWeek = 1000000
+  /\ date_diff (5, 999000000) (6, 0) UMs = 1
+  /\ date_diff (253402300799, 999999999) (-62135596800, 0) UMs = 315537897599999.
+Proof. repeat split; reflexivity. Qed.
 
 (* ------------------------------------------------------------------ calendar *)
 (* One 400-year era, day by day: the year-of-era, month and day computed by
